@@ -92,7 +92,7 @@ impl Rpc {
         requires
             !old(w).lock_held,                       // #no_rpc_under_lock [C14]
             is_hash_key(key_view(request.key), old(w).hash),   // #keys_namespaced_by_payment_hash [C14]
-            safe_write(*old(w), *request),           // #write_preserves_durable_invariant [C08,C02,C05]
+            safe_write(*old(w), *request),           // #write_preserves_durable_invariant [C08,C02,C05,C01,C09]
         ensures ds_call(*old(w), *request, r, *final(w)),
     { unimplemented!() }
 
